@@ -13,6 +13,13 @@ from .mir import T
 ENGINE = "URL_SAFE_NO_PAD"
 
 
+def _one(t):
+    """a text made of one rendered piece - `v.to_string()`, `format!("{}", v)` - is that piece"""
+    t = str(t)
+    return t[1:-1] if re.fullmatch(r"\{[^{}]*\}", t) else t
+
+
+
 def content(t):
     """strip single-field carrier aggregates (Footer{0: x}, Payload{0: x}) and their .0 projections."""
     guard = 0
@@ -338,7 +345,7 @@ def path_sensitive(facts, body):
                 v[k] = [False, undecided[-1]]
             continue
         lo, hi = o.state.bounds.get("len(parts0)", (1, A.LEN_MAX))
-        eqs = [(e[1], e[2]) for e in o.state.events if e[0] == "equal"]
+        eqs = [(_one(e[1]), _one(e[2])) for e in o.state.events if e[0] == "equal"]
         cond = " & ".join(o.state.cond)[-200:]
         if not (3 <= lo and hi <= 4):
             v["count"] = [False, "a token with %d..%d segments is accepted when [%s]" % (lo, hi, cond)]
@@ -406,7 +413,7 @@ def path_sensitive(facts, body):
         why = None
         for e in o.state.events:
             if e[0] == "notequal":
-                pair = {e[1], e[2]}
+                pair = {_one(e[1]), _one(e[2])}
                 if pair in ({"b64(footer.str)", "parts0[3]"}, {"b64('')", "parts0[3]"}) and lo >= 4:
                     why = "footer"
                 if pair in ({"{parts0[0]}.{parts0[1]}.", "{V}.{P}."}, {"parts0[0]", "V"}, {"parts0[1]", "P"}):
